@@ -440,7 +440,20 @@ def run_property(pid, tier, seed, escalate=False, replay=None):
             # "deep" generation (very long programs, costly for the model's checkers): thorough tier, and the
             # quick tier when the modelled sources differ from the recorded fingerprints
             deep = tier == "thorough" or fp_mult > 1
-            reps = engine.run_cases(comp, seed, n, dict(stream["params"], deep=deep))
+            # the budget is spent in slices of the base size; once a slice has shown 25 or more concrete failures the
+            # rest is skipped (a badly broken tree is not searched for hours: every failing case may run into the
+            # per-case time limit).  Without failures every case of the budget is run, in the same order as before.
+            base = max(1, stream[tier])
+            reps, done = [], 0
+            while done < n:
+                part = engine.run_cases(comp, seed, min(base, n - done), dict(stream["params"], deep=deep), start=done)
+                done += min(base, n - done)
+                reps += part
+                tmpf = []
+                _judge_stream(stream, part, tmpf, {}, engine.Stats())
+                if sum(1 for f in tmpf if f["kind"] in ("checker", "metamorphic")) >= 25 and done < n:
+                    cov["stopped_early"] = cov.get("stopped_early", 0) + (n - done)
+                    break
         _judge_stream(stream, reps, failures, cov, stats)
         new = failures[before:]
         # violation search: correspondence broke but no checker failed -> look further for a failing input
